@@ -169,6 +169,8 @@ def main(ctx):
             tk = rng.choice([k for k in base if k.startswith("T1")])
             if base[tk] == 0:
                 base[tk] = 50e-6
+            t2k = "T2" + tk[2:]
+            base[t2k] = min(base[t2k], 1.99 * base[tk])       # stay inside the physical domain T2 <= 2 T1 for every T1 of the sweep
             earlier = []
             for f in (1.0, 1.0 + 2e-3, 1.0 - 1e-3, 1.0 + 3e-4):
                 args = dict(base)
